@@ -255,6 +255,9 @@ CHECKS = {
             {"name": "xfer", "pkg": X, "run": "^TestVerifC07",
              "quick": {"checks": 700, "shards": 4, "timeout": 900},
              "thorough": {"checks": 8000, "shards": 16, "timeout": 3400}},
+            {"name": "app", "pkg": "./internal/app", "run": "^TestVerifC07",
+             "quick": {"checks": 1500, "shards": 2, "timeout": 600},
+             "thorough": {"checks": 20000, "shards": 8, "timeout": 1800}},
         ],
     },
     "C11": {
